@@ -194,3 +194,13 @@ package hclsyntax
 //@ nosafety
 // verif:func ParseTraversalPartial
 //@ nosafety
+
+// verif:unit U18 props=C19
+// verif:taintscan expression.go expression_ops.go expression_template.go
+
+// The type-mismatch description only mentions type and attribute names.
+// Assumed: it formats type names and object attribute names (part of a type, not value content).
+// verif:func describeConditionalTypeMismatch
+//@ trusted
+//@ pure
+//@ ensures clean(ret)
